@@ -166,6 +166,29 @@ impl<C: Config, Q: Query> Snapshot<C, Q> {
                 let fingerprint = self.engine().hash(&value);
                 let updated = old_node_info.value_fingerprint() != fingerprint;
 
+                // Dirt does not travel through a projection: its callers learn
+                // about what happens below it only when its value changes.
+                // A projection that now reaches a different set of firewalls
+                // with the same value has to tell them too, or they would
+                // keep repairing the firewalls it used to reach and never
+                // notice a change behind the new ones. Nothing has to be
+                // re-executed for that, so the dirt is sent up through the
+                // projections above instead of re-running them.
+                let reaches_other_firewalls = !updated
+                    && old_kind.is_projection()
+                    && {
+                        let transitive_firewall_callees =
+                            self.engine().create_tfc_from_scc_hash_set(
+                                lock_guard
+                                    .query_computing()
+                                    .transitive_firewall_callees(),
+                            );
+
+                        self.engine().hash(&transitive_firewall_callees)
+                            != old_node_info
+                                .transitive_firewall_callees_fingerprint()
+                    };
+
                 // The backward projections of an updated firewall or
                 // projection are invoked when it is reached as a transitive
                 // firewall callee of the root of a request (or by another
@@ -175,12 +198,13 @@ impl<C: Config, Q: Query> Snapshot<C, Q> {
                 // pending mark is void and the projections above would keep
                 // their stale value behind clean edges. The dirt is sent up
                 // through them in that case as well.
-                let through_projections = !backward_projections_follow;
+                let through_projections = reaches_other_firewalls
+                    || (updated && !backward_projections_follow);
 
                 let mut write_buffer = self.engine().new_write_transaction();
 
                 // if fingerprint has changed, we do dirty propagation
-                if updated {
+                if updated || reaches_other_firewalls {
                     write_buffer = self
                         .engine()
                         .dirty_propagate_from_batch(
